@@ -15,7 +15,7 @@ from doctrans.ast_utils import NoneStr
 TD = [
     (None, [ABSENT, 3, "x"]),
     ("int", [ABSENT, 0, 3, -2, NoneStr, "```2 ** 5```"]),
-    ("str", [ABSENT, "", "x", "a b", NoneStr]),
+    ("str", [ABSENT, "", "x", "a b", NoneStr, ", ", " x"]),
     ("bool", [ABSENT, True, False]),
     ("float", [ABSENT, 0.0, 0.5, -1.5]),
     ("Optional[int]", [ABSENT, NoneStr, 0, 3]),
@@ -35,7 +35,9 @@ RETS = [
     ("int", "the result", "```a * 2```"),
     ("Optional[int]", "the result", "None"),
     ("Tuple[int, int]", "the result", "```(a, a)```"),
-]  # a return entry has a type and prose (the quantifier's "(type, prose, optional default expression)")
+    ("int", None, ABSENT),
+    (None, "the result", ABSENT),
+]
 KWARGS = [None, ("kwargs", "Optional[dict]", "extra args", NoneStr), ("loader_kwargs", "Optional[dict]", None, NoneStr)]
 
 
